@@ -118,7 +118,9 @@ PathRules(c, p) ==
     (* ---- ready announced once, with the outcome, to the listeners registered before Start ---- *)
     \cup {Row("C13.readyOnce", "", p.starts[i].kind, p.starts[i].fault) :
             i \in {j \in 1..Len(p.starts) :
-                     LET s == p.starts[j]   want == IF s.fault = "none" THEN "nil" ELSE "err" IN
+                     LET s == p.starts[j]
+                         \* an interrupted start (context ended mid-migration) announces whatever REALLY happened: the store is usable afterwards or it is not
+                         want == IF s.fault = "none" THEN "nil" ELSE IF s.fault = "ctxCancel" THEN s.probe ELSE "err" IN
                      ~(/\ s.ret = want
                        /\ SeqAll(s.listeners, LAMBDA l : l.before => (l.calls = 1 /\ l.errs = <<want>>)))}}
     \cup {Row("conf", "", "late-or-hold", p.starts[i].kind) :
